@@ -157,3 +157,23 @@ var scratch [32]byte
 func ScratchSpace(n int64) string {
 	return string(strconv.AppendInt(scratch[:0], n, 10))
 }
+
+// HoistedSetting: positive control for the loop-capture rule (C15/R12): the setting is declared outside the loop,
+// reassigned per iteration and read by the goroutines started in the loop.
+func HoistedSetting(units []string, out []string) {
+	done := make(chan bool)
+	var setting string
+	for i, u := range units {
+		if setting == "" || u != setting {
+			setting = strings.ToUpper(u)
+		}
+		i := i
+		go func() {
+			out[i] = setting
+			done <- true
+		}()
+	}
+	for range units {
+		<-done
+	}
+}
